@@ -3,6 +3,6 @@ CONSTANTS
     Cap = 3
     NRec = 30
     Mode = "tree"
-    Depth = 60
+    Depth = 30
     Eager = TRUE
 CHECK_DEADLOCK FALSE
